@@ -581,7 +581,9 @@ func CompileRegexp(re *syntax.Regexp, config Config) (*Engine, error) {
 	// for small haystacks (< 64 bytes). This matches Rust regex's minimum_len() approach.
 	var fatTeddyFallback *ahocorasick.Automaton
 	if strategy == UseTeddy {
-		if fatTeddy, ok := pf.(*prefilter.FatTeddy); ok {
+		// Not for sets with a literal inside another one: the automaton would
+		// report the inner occurrence (it ends first), not the leftmost match.
+		if fatTeddy, ok := pf.(*prefilter.FatTeddy); ok && !prefilter.HasNestedLiteral(fatTeddy.Patterns()) {
 			builder := ahocorasick.NewBuilder()
 			for _, pattern := range fatTeddy.Patterns() {
 				builder.AddPattern(pattern)
